@@ -524,6 +524,7 @@ def w_video_pair(ctx, rng, i):
             both["A+B"] = (la[k0:k0 + 4] + lb[k0:k0 + 4], None, None)
         for step in range(int(rng.integers(6, 20))):
             which = ["A", "B"][rng.integers(0, 2)] if "A+B" not in both or rng.random() < 0.7 else "A+B"
+            both.pop("_keep_dummy", None)
             ll, off, fname = both[which]
             if which == "A+B":
                 j = int(rng.integers(0, 8))
@@ -532,9 +533,16 @@ def w_video_pair(ctx, rng, i):
             else:
                 # overlapping recent indices in the two lists
                 j = k = int(rng.integers(0, 6)) if rng.random() < 0.7 else int(rng.integers(0, N))
+            if rng.random() < 0.2:
+                # the same file is imported once more, with the other normalisation (a preview next to the working copy): the
+                # earlier list goes on yielding what *it* was asked for
+                extra = mio.import_video(pa if rng.random() < 0.5 else pb, landmark_resolver=resolver, normalize=True)
+                both.setdefault("_keep", []).append(extra) if isinstance(both.get("_keep"), list) else both.__setitem__("_keep", [extra])
             n0 = len(asked)
             img = ll[j]
             ctx.tap("video_element_read", "calls"); ctx.tap("video_element_read", "checked")
+            if img.pixels.dtype != np.uint8:
+                ctx.fail("element_value_differs_from_list_model", cls="LazyList", mech="frame_of_a_normalize_False_list_is_%s" % img.pixels.dtype)
             got = frame_id(img)
             if got != (k + off) % 256:
                 ctx.fail("element_value_depends_on_what_was_read_before", cls="LazyList", mech="two_videos", got=got, expected=(k + off) % 256, which=which)
@@ -587,8 +595,13 @@ def w_imported(ctx, rng, i):
             # the pattern given relative to the working directory - which the program changes before it reads the list
             os.chdir(os.path.dirname(tmp))
             pat = os.path.join(os.path.basename(tmp), os.path.basename(pat))
+        nz = bool(rng.random() < 0.5)
         if kind == "images":
-            ll = mio.import_images(pat, normalize=bool(rng.random() < 0.5))
+            ll = mio.import_images(pat, normalize=nz)
+            if rng.random() < 0.5:
+                # an unrelated import with the other option, before anything of the list is read
+                mio.import_image(os.path.join(tmp if not relative else os.path.basename(tmp), "item_00.png"), normalize=not nz)
+                other_list = mio.import_images(pat, normalize=not nz)
         elif kind == "landmarks":
             ll = mio.import_landmark_files(pat)
         else:
@@ -619,6 +632,11 @@ def w_imported(ctx, rng, i):
             else:
                 got, exp = [ident(e) for e in ll.map(lambda o: o)], list(model)
             ctx.tap("imported_list_read", "calls"); ctx.tap("imported_list_read", "checked")
+            if kind == "images":
+                e0 = ll[0]
+                if (e0.pixels.dtype == np.uint8) == nz:
+                    ctx.fail("element_value_differs_from_list_model", cls="LazyList", mech="imported_images:normalize_option_of_another_import", got=str(e0.pixels.dtype), expected="float" if nz else "uint8")
+                    break
             if got != exp:
                 ctx.fail("element_value_differs_from_list_model", cls="LazyList", mech="imported_%s:%s" % (kind, op), got=got[:8], expected=exp[:8], history=progs)
                 break
